@@ -180,6 +180,9 @@ var harnessPrims = map[string]StubFn{
 	"vTier": func(x *Exec, fr *Frame, fn *ssa.Function, a []Value, p token.Pos) Value {
 		return VInt{mkConst(64, uint64(tierN))}
 	},
+	"vMulHi": func(x *Exec, fr *Frame, fn *ssa.Function, a []Value, p token.Pos) Value {
+		return VInt{mkMulHiS(asInt(a[0]), asInt(a[1]))}
+	},
 	"vSymbolic": func(x *Exec, fr *Frame, fn *ssa.Function, a []Value, p token.Pos) Value {
 		return VBool{mkBool(x.concrete == nil)}
 	},
